@@ -122,6 +122,7 @@ int main(int argc, char** argv) {
 #endif
   vf_rng_state = seed * 0x9E3779B97F4A7C15ull + 99;
   vf_log_open(out);
+  vf_watchdog = 30;
 #if MI_PADDING
   padding = 1;
 #endif
